@@ -22,6 +22,15 @@
 (* justifying a refusal = a stop request has been issued, the source is    *)
 (* closing, or it has stopped; for the purpose of forbidding admission =   *)
 (* the source has cleared its accepting flag (the later of the two).       *)
+(*                                                                         *)
+(* Policy "confd" is the conflating policy over a dictionary output: a     *)
+(* send either sets key KeyOf(v) to v (an effective delta, call.fx = 1) or  *)
+(* erases a key that is never set (call.fx = 0).  The second kind is        *)
+(* accepted like any other send but carries nothing to deliver: it is not  *)
+(* part of the accepted sequence and obliges nobody to wake the loop.  A    *)
+(* delivery shows the modified values; they must be the merged latest      *)
+(* state - the last value per key - of the next accepted deltas up to some *)
+(* point of the admission order.                                           *)
 (***************************************************************************)
 EXTENDS Integers, Sequences, FiniteSets, TLC, Json, IOUtils
 
@@ -45,7 +54,12 @@ Srcs    == 0..(NSrc - 1)
 Policy(s) == Prog.srcs[s + 1].policy
 Cap(s)    == Prog.srcs[s + 1].cap
 
-NoCall == [open |-> FALSE, kind |-> "", src |-> 0, v |-> 0, acc |-> FALSE, ref |-> FALSE]
+Conflating(s) == Policy(s) \in {"conf", "confd"}
+KeyOf(v) == v % 3          \* confd: the dictionary key written by send v (rt.cpp kDictKeys)
+Effective(e) == IF "fx" \in DOMAIN e THEN e.fx = 1 ELSE TRUE
+SetMax(A) == CHOOSE a \in A : \A b \in A : b <= a
+
+NoCall == [open |-> FALSE, kind |-> "", src |-> 0, v |-> 0, acc |-> FALSE, ref |-> FALSE, fx |-> TRUE]
 
 InitS == [ acc     |-> [s \in Srcs |-> <<>>],   \* accepted values, admission order
            npop    |-> [s \in Srcs |-> 0],      \* taken out of the queue by the graph
@@ -64,7 +78,8 @@ QLen(s, x)   == Len(s.acc[x]) - s.npop[x] - s.drop[x]
 Undeliv(s, x) == Len(s.acc[x]) - s.drop[x] - s.ndel[x]
 StopKnown(s, x) == s.stopish \/ s.closing[x] \/ s.stopped[x]
 Call(s, th) == Get(s.calls, th, NoCall)
-InFlightAccept(s) == \E th \in DOMAIN s.calls : s.calls[th].open /\ s.calls[th].acc
+\* a send that admitted something to deliver and has not returned yet: it may still be about to wake the loop
+InFlightAccept(s) == \E th \in DOMAIN s.calls : s.calls[th].open /\ s.calls[th].acc /\ s.calls[th].fx
 
 RefusalClause(c) == IF c.kind = "block" THEN "C16.blocking_send_failed_without_stop"
                     ELSE "C16.send_refused_while_not_full_and_not_stopped"
@@ -72,7 +87,7 @@ RefusalClause(c) == IF c.kind = "block" THEN "C16.blocking_send_failed_without_s
 IndexOf(q, v, from) == LET c == {i \in from..Len(q) : q[i] = v} IN IF c = {} THEN 0 ELSE CHOOSE i \in c : \A j \in c : i <= j
 
 OnCall(e) == IF Call(S, e.th).open THEN Fail("trace.nested_send_call")
-             ELSE Ok([S EXCEPT !.calls = Put(@, e.th, [open |-> TRUE, kind |-> e.kind, src |-> e.src, v |-> e.v, acc |-> FALSE, ref |-> FALSE])])
+             ELSE Ok([S EXCEPT !.calls = Put(@, e.th, [open |-> TRUE, kind |-> e.kind, src |-> e.src, v |-> e.v, acc |-> FALSE, ref |-> FALSE, fx |-> Effective(e)])])
 
 OnRet(e) ==
     LET c == Call(S, e.th)
@@ -91,9 +106,10 @@ OnAccept(e) ==
           <<"trace.admission_outside_a_send_call", c.open /\ c.src = x /\ c.v = e.v>>,
           <<"C16.value_admitted_twice_by_one_send", ~c.acc>>,
           <<"C16.accepted_after_stop", ~S.stopped[x]>>,
-          <<"C16.capacity_exceeded", (Policy(x) # "conf" /\ Cap(x) > 0) => QLen(S, x) + 1 <= Cap(x)>> >>, 1)
+          <<"C16.capacity_exceeded", (~Conflating(x) /\ Cap(x) > 0) => QLen(S, x) + 1 <= Cap(x)>> >>, 1)
     IN IF why # "" THEN Fail(why)
-       ELSE Ok([S EXCEPT !.acc[x] = Append(@, e.v), !.calls = Put(@, e.th, [c EXCEPT !.acc = TRUE])])
+       \* a delta with no effect is accepted (the send must report true) but adds nothing to the values to deliver
+       ELSE Ok([S EXCEPT !.acc[x] = IF c.fx THEN Append(@, e.v) ELSE @, !.calls = Put(@, e.th, [c EXCEPT !.acc = TRUE])])
 
 \* a refusal is justified by the abstract state at the point where it was decided
 OnRefusedFull(e) ==
@@ -129,6 +145,18 @@ OnDlv(e) ==
           <<"C16.two_values_in_one_cycle", e.t # S.lastT[x]>>,
           <<"C16.delivery_times_not_increasing", e.t > S.lastT[x]>> >>, 1)
     IN IF k = 0 THEN Fail("trace.empty_delivery")
+       ELSE IF Policy(x) = "confd" THEN
+            LET idx  == {IndexOf(q, e.vals[i], n + 1) : i \in 1..k}
+                old  == \E i \in 1..k : IndexOf(q, e.vals[i], 1) # 0 /\ IndexOf(q, e.vals[i], 1) <= n
+                j    == SetMax(idx)
+                want == {q[i] : i \in {i \in (n + 1)..j : \A i2 \in (i + 1)..j : KeyOf(q[i2]) # KeyOf(q[i])}}
+                got  == {e.vals[i] : i \in 1..k}
+            IN IF 0 \in idx /\ old THEN Fail("C16.value_delivered_twice")
+               ELSE IF 0 \in idx THEN Fail("C16.delivered_not_prefix_of_accepted")
+               ELSE IF got # want \/ Cardinality(got) # k THEN Fail("C16.delivered_not_the_merged_latest_state_of_the_accepted_deltas")
+               ELSE IF \E i \in 1..k : e.keys[i] # KeyOf(e.vals[i]) THEN Fail("C16.delivered_value_under_another_key")
+               ELSE IF timeWhy # "" THEN Fail(timeWhy)
+               ELSE Ok([S EXCEPT !.ndel[x] = j, !.lastT[x] = e.t])
        ELSE IF Policy(x) = "conf" THEN
             LET v == e.vals[1]
                 j == IndexOf(q, v, n + 1)
